@@ -1141,7 +1141,7 @@ func (c *compiler) compileModify() {
 		&code{op: opcallpc},
 		&code{op: opload, v: p}, //                 setpath($p; ...)
 		&code{op: opload, v: v},
-		&code{op: opcall, v: [3]any{funcSetpathWithAllocator, 3, "_setpath"}},
+		&code{op: opcall, v: [3]any{funcModifypathWithAllocator, 3, "_setpath"}},
 		&code{op: opstore, v: v},
 		&code{op: opload, v: v},                 // ., break $l
 		&code{op: opfork, v: len(c.codes) + 34}, // [L4]
